@@ -201,6 +201,11 @@ func genTamper(g *Rng, tier string) *Plan {
 				SessionIndex: fmt.Sprintf("si-%d-%d", i, j), NotBefore: i64(-1000), NotOnOrAfter: i64(3_600_000),
 				Confs: []ConfSpec{{NotOnOrAfter: i64(3_600_000), Recipient: spBase + "/saml/acs", InResponseTo: c01ReqID}},
 				Attrs: []AttrSpec{{Name: "uid", Values: []string{marker("uid", i*10+j)}}, {Name: "groups", Friendly: "g", Values: []string{marker("grp", i*10+j), "staff"}}}}
+			if g.Bool(0.2) {
+				// principals and values that differ from others only in white space: what was signed is what must come back
+				a.NameID = fmt.Sprintf(Pick(g, " %s", "%s ", "%s\u00a0", "\u2003%s", "%s\n", "\t%s\t", "  %s  "), a.NameID)
+				a.Attrs[0].Values[0] = fmt.Sprintf(Pick(g, " %s", "%s ", "%s\u00a0", "\n%s\n"), a.Attrs[0].Values[0])
+			}
 			if g.Bool(0.35) {
 				a.Encrypt, a.EncryptTo = true, c01SPKey
 			}
